@@ -199,6 +199,30 @@ def valid_templates(tier="quick"):
     st = [Stmt("dd", ex=["dd.in"], copy=True), o, Stmt("after", ex=["out"])]
     ops, nb = common_ops([{"op": "touch", "path": "in", "label": "touch in"}])
     T.append(_mk("restat_by_dyndep", [Variant("v0", st)], {"dd.in": dd6}, ops, [nb], depth, ["produced", "restat"]))
+
+    # D6b: the dyndep binding sits in the rule block, so the statement has no block of its own -- like its neighbour u, whose
+    # tool also writes only on change but which nobody declares restat: what the dyndep file says of `out` is about `out` alone
+    o = Stmt("out", ex=["in"], oo=["dd"], dyndep="dd", restat=False)
+    o.dyn_restat = True
+    o.dyndep_at_rule = True
+    u = Stmt("u", ex=["t"])
+    u.dyn_restat = True
+    for mode in ("existing", "produced"):
+        st = ([Stmt("dd", ex=["dd.in"], copy=True)] if mode == "produced" else []) + [o, Stmt("after", ex=["out"]), u, Stmt("w", ex=["u"])]
+        ops = [{"op": "touch", "path": "in", "label": "touch in"}, {"op": "touch", "path": "t", "label": "touch t"},
+               {"op": "edit", "path": "t", "label": "edit t"}]
+        nb = len(ops)
+        ops += [ninja_op(j=2), ninja_op(targets=["w"], j=1)]
+        T.append(_mk("restat_by_dyndep_bound_in_the_rule/" + mode, [Variant("v0", st)], {"dd" if mode == "existing" else "dd.in": dd6}, ops, [nb],
+                     min(depth, 4), [mode, "restat"]))
+
+    # D1p: the dyndep file spells the input it adds the way generated files do
+    for spn, sp in (("dot", "./x"), ("dotdot", "zz/../x")):
+        dsp = dyndep_text([("out", [], [sp], False)])
+        st = [Stmt("x", ex=["s"]), Stmt("out", ex=["in"], oo=["dd"], dyndep="dd", extra_reads=["x"]), Stmt("top", ex=["out"])]
+        ops, nb = common_ops()
+        T.append(_mk("existing_adds_input_spelled_" + spn, [Variant("v0", st)], {"dd": dsp}, ops, [nb], min(depth, 4), ["existing", "spelling"]))
+        T.append(_mk("existing_adds_input_spelled_" + spn + "/fresh", [Variant("v0", st)], {"dd": dsp}, ops, [], 2, ["existing", "spelling", "fresh"]))
     return T
 
 
